@@ -103,6 +103,18 @@ func oneCase(run *hlib.Run, rng *hlib.Rng, c int) {
 			break
 		}
 	}
+	if !directed && rng.Chance(60) {
+		// the joiner's id is EXACTLY the hash of a key the clients use (upper end of the hand-off range)
+		h := ringh.HashOf(keys[rng.Intn(len(keys))])
+		taken := false
+		for _, m := range ids[:n] {
+			taken = taken || m == h
+		}
+		if !taken {
+			ids[n] = h
+			run.Count("variant:joiner-id-is-a-key-hash")
+		}
+	}
 	r := ringh.NewRing()
 	r.Interval = interval
 	for _, id := range ids {
